@@ -104,7 +104,8 @@ func (m *monC15) OnStep(r *Runner, st *Step) {
 			for i := range r.W.Cfg.Assets {
 				d := AllianceDenoms[i]
 				// custody may only change by reward coins passing through (withdrawn from x/distribution, forwarded to the pool)
-				wantCustody := netTransfer(fl, dis, mod, d).Sub(netTransfer(fl, mod, rew, d))
+				// (or sent back to the fee collector when they can be credited to nobody)
+				wantCustody := netTransfer(fl, dis, mod, d).Sub(netTransfer(fl, mod, rew, d)).Sub(returnedRewards(r, st.Events).AmountOf(d))
 				if got := post.BalOf(r.W.ModuleAddr, d).Sub(pre.BalOf(r.W.ModuleAddr, d)); !got.Equal(wantCustody) {
 					r.Violate("C15.a", "custody-changed", fmt.Sprintf("custody of %s changed by %s during a redelegation (reward pass-through accounts for %s)", d, got, wantCustody))
 					return
